@@ -224,6 +224,8 @@ impl<T> HybridRwLock<T> {
         }
       }
 
+      #[cfg(excsn_fibre_verif)]
+      fibre_verif_rt::probe("rwlock_writer_queued_and_parking");
       while unsafe { (*node_ptr).state.load(Ordering::Acquire) } == WAITING {
         thread::park();
       }
